@@ -73,7 +73,7 @@ CHECKS = {
    note="Executor scheduling inside the tracker is not controlled (requests of a path are serial; paths run concurrently in disjoint namespaces); malformed requests are judged by 120 ms of silence."),
  "C17": dict(level="model_checking", engine="netmc", ref="§3 C17",
    technique="explicit-state BFS over event sequences of a reference model + conformance replay of every explored transition against running trackers (worker-count configurations, placements), every connection fenced after every event",
-   text="Event sequences (announce with own / another connection's peer id, with offers, answers to received offers, scrapes merged over swarm workers, orderly and abrupt close) are enumerated breadth-first with deduplication on an abstract model state (depth 2-3 on the full alphabet, 4-5 on a signalling alphabet); each explored transition is replayed with its BFS-tree path in a fresh namespace against aquatic_ws::run for socket_workers x swarm_workers in {1,2,3}^2 (quick: the diagonal) with connections on chosen socket workers (hook H7) and torrents on chosen swarm workers; after every event every connection plus a monitor connection is fenced by a scrape covering all swarm workers and the messages each connection received must be exactly those a reference tracker with per-connection ownership allows (offer receivers are the implementation's choice, checked for legality and followed). 30 ownership paths run on fresh 2-worker trackers where two connections are each the first of their socket worker, so that per-worker connection ids coincide. Pipelined bursts: n = 1..=16 (and 17, 24, 64, 200) requests written to one connection in a single flush must all be answered and all their offers delivered (beyond 16 in flight the tracker drops messages: known finding). Large messages: forwarded offers and answers at every size class up to the 64 KiB message limit and scrape replies for 1..300 torrents must arrive whole and leave the connections usable.",
+   text="Event sequences (announce with own / another connection's peer id, with offers, answers to received offers, scrapes merged over swarm workers, orderly and abrupt close) are enumerated breadth-first with deduplication on an abstract model state (depth 2-3 on the full alphabet, 4-5 on a signalling alphabet); each explored transition is replayed with its BFS-tree path in a fresh namespace against aquatic_ws::run for socket_workers x swarm_workers in {1,2,3}^2 (quick: the diagonal) with connections on chosen socket workers (hook H7) and torrents on chosen swarm workers; after every event every connection plus a monitor connection is fenced by a scrape covering all swarm workers and the messages each connection received must be exactly those a reference tracker with per-connection ownership allows (offer receivers are the implementation's choice, checked for legality and followed). 30 ownership paths run on fresh 2-worker trackers where two connections are each the first of their socket worker, so that per-worker connection ids coincide. Pipelined bursts: n = 1..=16 (and 17, 24, 64, 200) requests written to one connection in a single flush must all be answered and all their offers delivered (beyond 16 in flight the tracker drops messages: known finding). Large messages: forwarded offers and answers at every size class up to the 64 KiB message limit and scrape replies for 1..300 torrents must arrive whole and leave the connections usable. A connection the tracker closes itself for idleness must lose its peers too.",
    note="Executor scheduling not controlled; few messages in flight per connection (the 16-slot local channel that drops on overflow is outside the bound); dedup ignores pending offers."),
  "C11": dict(level="model_checking", engine="seqmc", ref="§3 C11",
    technique="exhaustive enumeration of list-file contents x reload sequences; explicit-state BFS over announce / reload / clean histories on a live socket worker and on the storages; SIGUSR1 reload sequences against all three run()",
